@@ -273,9 +273,33 @@ type RecConn struct {
 	// together with a change_cipher_spec record (as TLS 1.3 clients in middlebox-compatibility mode may coalesce them)
 	TailCCS  int
 	tailDone bool
+	// HoldAt > 0: the first handshake record is written up to HoldAt bytes, Held is closed, and the rest follows when HoldCh is closed
+	// (a client caught in the middle of its ClientHello while other connections go on)
+	HoldAt   int
+	HoldCh   chan struct{}
+	Held     chan struct{}
+	holdDone bool
 }
 
 func (c *RecConn) Write(p []byte) (int, error) {
+	if c.HoldAt > 0 && !c.holdDone && len(p) > c.HoldAt && len(p) >= 5 && p[0] == 22 {
+		c.holdDone = true
+		c.mu.Lock()
+		c.Written = append(c.Written, p...)
+		c.mu.Unlock()
+		if _, err := c.Conn.Write(p[:c.HoldAt]); err != nil {
+			return 0, err
+		}
+		close(c.Held)
+		select {
+		case <-c.HoldCh:
+		case <-time.After(5 * time.Second):
+		}
+		if _, err := c.Conn.Write(p[c.HoldAt:]); err != nil {
+			return 0, err
+		}
+		return len(p), nil
+	}
 	if c.TailCCS > 0 && !c.tailDone && len(p) > c.TailCCS && len(p) >= 5 && p[0] == 22 {
 		c.tailDone = true
 		c.mu.Lock()
@@ -388,6 +412,9 @@ type Client struct {
 func (c *Client) Close() { c.Conn.Close() }
 
 type DialOpts struct {
+	HoldAt   int
+	HoldCh   chan struct{}
+	Held     chan struct{}
 	LocalIP  string
 	TailCCS  int
 	Fragment int
@@ -410,7 +437,7 @@ func dialRaw(addr string, o DialOpts) (*RecConn, error) {
 	if tc, ok := c.(*net.TCPConn); ok {
 		tc.SetNoDelay(true)
 	}
-	return &RecConn{Conn: c, Segment: o.Segment, Gap: o.Gap, FragmentAt: o.Fragment, TailCCS: o.TailCCS}, nil
+	return &RecConn{Conn: c, Segment: o.Segment, Gap: o.Gap, FragmentAt: o.Fragment, TailCCS: o.TailCCS, HoldAt: o.HoldAt, HoldCh: o.HoldCh, Held: o.Held}, nil
 }
 
 // DialUTLS handshakes with a custom ClientHelloSpec.
